@@ -168,9 +168,25 @@ func runC12(c *Ctx, idx int, o *Obs) {
 	minSteps := -1
 	for _, al := range acrAlgos {
 		t := mustParse(text)
-		if r.Intn(2) == 0 {
+		switch r.Intn(3) {
+		case 0:
 			t = usedObject(r, text) // an object with a past: indexed under another tip name, then renamed
 			o.Ev("used_object", 1)
+		case 1:
+			// an unrooted tree object re-rooted at another inner node after parsing (the parent is no longer the
+			// first neighbour of every node); the oracle works on the model read off the object
+			if !t.Rooted() && !hasSingles(t) {
+				var cand []*tree.Node
+				for _, nd := range innerNodes(t) {
+					if nd.Nneigh() >= 3 {
+						cand = append(cand, nd)
+					}
+				}
+				if len(cand) > 0 {
+					t.Reroot(cand[r.Intn(len(cand))])
+					o.Ev("rerooted_object", 1)
+				}
+			}
 		}
 		m, steps, err := acr.ParsimonyAcr(t, states, al.id, false)
 		o.Ev("acr:"+al.name, 1)
@@ -439,11 +455,28 @@ func c12ASR(c *Ctx, r *rand.Rand, idx int, o *Obs, text string, tips []string) {
 	}
 	for _, al := range acrAlgos {
 		t := mustParse(text)
-		if r.Intn(2) == 0 {
+		switch r.Intn(3) {
+		case 0:
 			t = usedObject(r, text) // an object with a past: indexed under another tip name, then renamed
 			o.Ev("used_object", 1)
+		case 1:
+			// an unrooted tree object re-rooted at another inner node after parsing (the parent is no longer the
+			// first neighbour of every node); the oracle works on the model read off the object
+			if !t.Rooted() && !hasSingles(t) {
+				var cand []*tree.Node
+				for _, nd := range innerNodes(t) {
+					if nd.Nneigh() >= 3 {
+						cand = append(cand, nd)
+					}
+				}
+				if len(cand) > 0 {
+					t.Reroot(cand[r.Intn(len(cand))])
+					o.Ev("rerooted_object", 1)
+				}
+			}
 		}
 		t.ClearComments()
+		objText := t.Newick() // the object's own rooting and child order, for the single-character runs below
 		steps, err := asr.ParsimonyAsr(t, mkAlign(), al.id, false)
 		o.Ev("asr:"+al.name, 1)
 		if !o.Check(err == nil, "asr_error", al.name+": "+fmt.Sprint(err), inp) {
@@ -501,7 +534,7 @@ func c12ASR(c *Ctx, r *rand.Rand, idx int, o *Obs, text string, tips []string) {
 				for _, tp := range tips {
 					st[tp] = string(seqs[tp][j])
 				}
-				t2 := mustParse(text)
+				t2 := mustParse(objText)
 				_, steps2, err := acr.ParsimonyAcr(t2, st, al.id, false)
 				if o.Check(err == nil && steps2 == steps[j], "asr_vs_acr_steps", fmt.Sprintf("%s site %d: ASR %d steps, ACR on that column %d (err %v)", al.name, j, steps[j], steps2, err), inp2) {
 					m2 := modelOf(t2)
